@@ -243,10 +243,12 @@ impl BuildJob<'_> {
         let firstline = {
             let f = File::open(df.do_dir.join(&df.do_file)).map_err(RedoError::opaque_error)?;
             let mut f = BufReader::new(f);
-            let mut firstline = String::new();
-            f.read_line(&mut firstline)
+            // Only a `#!` line matters here; a script in another encoding is
+            // the interpreter's business, so read bytes and substitute.
+            let mut firstline = Vec::new();
+            f.read_until(b'\n', &mut firstline)
                 .map_err(RedoError::opaque_error)?;
-            firstline
+            String::from_utf8_lossy(&firstline).into_owned()
         };
         let firstline = firstline.trim();
         if firstline.starts_with("#!/") {
